@@ -74,7 +74,7 @@ func Parse(str string) (Selector, error) {
 				sel = append(sel, segment{str: tok, optional: opt, index: idx})
 
 			// explicit field, ["abcd"]
-			case strings.HasPrefix(lookup, "\"") && strings.HasSuffix(lookup, "\""):
+			case len(lookup) >= 2 && strings.HasPrefix(lookup, "\"") && strings.HasSuffix(lookup, "\""):
 				fieldName := lookup[1 : len(lookup)-1]
 				if strings.Contains(fieldName, ":") {
 					return nil, newParseError(fmt.Sprintf("invalid segment: %s", seg), str, col, tok)
@@ -166,7 +166,8 @@ func tokenize(str string) []string {
 		col++
 	}
 
-	if ofs < col && ctx != "\"" {
+	if ofs < col {
+		// an unterminated quoted tail is kept, so that Parse rejects it as an invalid segment
 		toks = append(toks, str[ofs:col])
 	}
 
